@@ -17,6 +17,7 @@ import (
 	"sync/atomic"
 
 	"github.com/rs/zerolog"
+	zlog "github.com/rs/zerolog/log"
 
 	"github.com/basekick-labs/arc/internal/database"
 	"github.com/basekick-labs/arc/internal/verifsim/simkit"
@@ -43,6 +44,15 @@ func scratchRoot() string {
 	b := os.Getenv("VERIF_SCRATCH")
 	if b == "" {
 		b = "/dev/shm"
+	}
+	// roots left behind by finished processes (simkit exits through os.Exit)
+	if old, _ := filepath.Glob(filepath.Join(b, "verif-cq.*")); len(old) > 0 {
+		for _, o := range old {
+			pid := strings.TrimPrefix(filepath.Base(o), "verif-cq.")
+			if _, err := os.Stat("/proc/" + pid); os.IsNotExist(err) {
+				os.RemoveAll(o)
+			}
+		}
 	}
 	d := filepath.Join(b, fmt.Sprintf("verif-cq.%d", os.Getpid()))
 	os.RemoveAll(d)
@@ -96,11 +106,13 @@ func firstLine(s string) string {
 }
 
 func main() {
-	zerolog.SetGlobalLevel(zerolog.Disabled)
+	// every logger handed to arc is disabled except the CQ handler's, whose
+	// Info lines the harness reads (see logCapture)
+	zerolog.SetGlobalLevel(zerolog.InfoLevel)
+	zlog.Logger = quietLogger
 	if os.Getenv("VERIF_LOG") != "" {
 		zerolog.SetGlobalLevel(zerolog.DebugLevel)
 	}
-	defer os.RemoveAll(scratchRoot())
 	simkit.Main(
 		&simkit.Check{ID: "C29", Gen: genC29, New: func() any { return &C29Plan{} }, Run: runC29, Shrink: shrinkC29, Desc: descC29},
 	)
